@@ -1430,6 +1430,13 @@ def target_worker_thread(host: str, port: int, shared_aconf: AuditConf) -> Tuple
         SSH1_KexDB.thread_exit()
         SSH2_KexDB.thread_exit()
 
+    # When JSON output was requested, anything that is not a JSON document (connection errors, parse failures, stack traces) is wrapped into one, so that the list printed by main() remains valid JSON.
+    if my_aconf.json:
+        try:
+            json.loads(string_output)
+        except ValueError:
+            string_output = json.dumps({'target': '%s:%d' % (host, port), 'error': string_output}, sort_keys=True)
+
     return ret, string_output
 
 
